@@ -435,23 +435,36 @@ def scan_at(chk: Check, rule: str) -> None:
     key = "util.nodes_at"
     al = local_aliases(f.node)
     rng_names = {k for k, v in al.items() if isinstance(v, ast.Call) and attr_path(v.func) == ("get_desired_range",)}
-    ifs = [n for n in walk_no_nested(f.node) if isinstance(n, ast.If)]
     ok = False
     why = "no test"
-    if len(ifs) == 1:
-        t = ifs[0].test
-        parts = t.values if isinstance(t, ast.BoolOp) and isinstance(t.op, ast.And) else [t]
-        notnone = any(isinstance(p, ast.Compare) and isinstance(p.ops[0], ast.IsNot) for p in parts)
-        member = [p for p in parts if isinstance(p, ast.Compare) and isinstance(p.ops[0], ast.In)]
-        addr_ok = False
-        if len(member) == 1:
-            l = member[0].left
-            if isinstance(l, ast.Name) and l.id in al:
-                l = al[l.id]
-            addr_ok = isinstance(l, ast.Attribute) and l.attr == "address" and \
-                attr_path(member[0].comparators[0]) and attr_path(member[0].comparators[0])[0] in rng_names
-        ok = notnone and addr_ok and len(parts) == 2
-        why = unparse(t)
+    ys_ = [y for y in walk_no_nested(f.node) if isinstance(y, ast.Yield)]
+    if len(ys_) == 1:
+        # what holds where the node is yielded (guards in any spelling)
+        from ..cfg import CFG as _CFG
+        flow = _CFG(f.node)
+        facts = [(t_, v_) for t_, v_ in flow.facts_at(flow.node_of(ys_[0])) if not isinstance(t_, ast.stmt)]
+        notnone = addr_ok = False
+        extra = 0
+        for t_, v_ in facts:
+            if isinstance(t_, ast.Compare) and len(t_.ops) == 1 and isinstance(t_.ops[0], (ast.Is, ast.IsNot)) \
+                    and isinstance(t_.comparators[0], ast.Constant) and t_.comparators[0].value is None:
+                if v_ == isinstance(t_.ops[0], ast.IsNot):
+                    notnone = True
+                else:
+                    extra += 1
+            elif isinstance(t_, ast.Compare) and len(t_.ops) == 1 and isinstance(t_.ops[0], (ast.In, ast.NotIn)):
+                l = t_.left
+                if isinstance(l, ast.Name) and l.id in al:
+                    l = al[l.id]
+                if v_ == isinstance(t_.ops[0], ast.In) and isinstance(l, ast.Attribute) and l.attr == "address" and \
+                        attr_path(t_.comparators[0]) and attr_path(t_.comparators[0])[0] in rng_names:
+                    addr_ok = True
+                else:
+                    extra += 1
+            else:
+                extra += 1
+        ok = notnone and addr_ok and extra == 0
+        why = " and ".join("%s is %s" % (unparse(t_)[:40], v_) for t_, v_ in facts) or "no test"
     chk.ob(rule, key + ":address-in-range", ok, f.loc(),
            "nodes_at must keep exactly the nodes whose address is known and a member of the requested "
            "range: %s" % why, 3)
@@ -466,24 +479,32 @@ def range_helpers(chk: Check, rule: str) -> None:
     f = util_function(repo, "get_desired_range")
     chk.saw(f)
     p = f.param_names()[0]
-    rets = [r for r in walk_no_nested(f.node) if isinstance(r, ast.Return) and r.value is not None]
     ok = False
     why = ""
-    ints = [r for r in rets if isinstance(r.value, ast.Call) and attr_path(r.value.func) == ("range",)]
-    same = [r for r in rets if attr_path(r.value) == (p,)]
-    if len(ints) == 1 and len(same) == 1 and len(rets) == 2 and len(ints[0].value.args) == 2:
-        a, b = ints[0].value.args
-        try:
-            la = _lin(a, lambda e: ({"A": 1}, 0) if attr_path(e) == (p,) else None)
-            lb = _lin(b, lambda e: ({"A": 1}, 0) if attr_path(e) == (p,) else None)
-            ok = la == ({"A": 1}, 0) and lb == ({"A": 1}, 1)
-            why = "int case is %s" % unparse(ints[0].value)
-        except Outside as e:
-            why = str(e)
-        # the int case is taken for ints
-        par = getattr(ints[0], "_parent", None)
-        ok = ok and isinstance(par, ast.If) and ints[0] in par.body and isinstance(par.test, ast.Call) and \
-            attr_path(par.test.func) == ("isinstance",) and (dotted(par.test.args[1]) or ("",))[-1] == "int"
+    from ..summaries import Outside as _SOut, Summary
+    try:
+        sm = Summary(f.node)
+        vd = sm.value_dnf()
+        rng_vals = [k for k in vd if k.startswith("range(")]
+        same_vals = [k for k in vd if k == p]
+        if len(vd) == 2 and len(rng_vals) == 1 and len(same_vals) == 1:
+            call = sm.value_expr(rng_vals[0])
+            if isinstance(call, ast.Call) and len(call.args) == 2:
+                la = _lin(call.args[0], lambda e: ({"A": 1}, 0) if attr_path(e) == (p,) else None)
+                lb = _lin(call.args[1], lambda e: ({"A": 1}, 0) if attr_path(e) == (p,) else None)
+                ok = la == ({"A": 1}, 0) and lb == ({"A": 1}, 1)
+                why = "int case is %s" % rng_vals[0]
+
+            def is_int_test(conj, want: bool) -> bool:
+                return len(conj) == 1 and all(
+                    k[0] == "truthy" and k[1].replace(" ", "") in ("isinstance(%s,int)" % p,) and v == want
+                    for k, v in conj.items())
+            ok = ok and len(vd[rng_vals[0]]) == 1 and is_int_test(vd[rng_vals[0]][0], True) \
+                and len(vd[p]) == 1 and is_int_test(vd[p][0], False)
+        else:
+            why = "returns %s" % sorted(vd)
+    except (_SOut, Outside) as e:
+        why = str(e)
     chk.ob(rule, "util.get_desired_range:point-is-unit-range", ok, f.loc(),
            "a single address a must become range(a, a + 1) and a range must be passed through (%s)" % why, 3)
     table = {"_nodes_on_interval_tree": ("_nodes_on_interval_tree_impl", "interval_getter", "_address_interval", True),
